@@ -285,6 +285,36 @@ pub fn run(env: &Env) -> PropRun {
     let en = enum_narrowing();
     parts.push(run_part(env, "enum-narrowing", en.len(), true, "12 limits x 3 sizes x {1,5,30} long lines x narrowing to {1,2,3,7} columns x with/without an alternate-screen excursion x 3 drain patterns", &|i| en.get(i).cloned(), &j));
     parts.push(random_part(env, "bulk-backlog", env.tier.scale(160, 20), &gen_bulk, &j));
+    // magnitudes of the limit itself: 4096 ... 250 000 lines, flooded past limit + 10 % in one
+    // call, in several calls, and one line per call for the last stretch
+    {
+        let big: [usize; 8] = [4096, 10_000, 65_535, 65_536, 100_000, 100_001, 131_072, 250_000];
+        let mut cases: Vec<Case> = vec![];
+        for (k, l) in big.iter().enumerate() {
+            let (cols, rows) = [(1usize, 1usize), (2, 2), (4, 3), (1, 5)][k % 4];
+            let total = l + l / 10 + l / 20 + 7;
+            let mut c = Case::new(cols, rows, Some(*l));
+            match k % 3 {
+                0 => c.calls.push(Call::FeedStr("\n".repeat(total))),
+                1 => {
+                    for _ in 0..4 {
+                        c.calls.push(Call::FeedStr("y\r\n".repeat(total / 4 + 1)));
+                    }
+                }
+                _ => {
+                    c.calls.push(Call::FeedStr("\n".repeat(l + l / 10 - 3)));
+                    for _ in 0..40 {
+                        c.calls.push(Call::FeedStr("z\n".into()));
+                    }
+                }
+            }
+            c.calls.push(Call::Resize(cols + 1, rows));
+            c.calls.push(Call::FeedStr("\x1b[?1049h\x1b[?1049l\n".into()));
+            c.nums = vec![k % 3];
+            cases.push(c);
+        }
+        parts.push(run_part(env, "enum-large-limits", cases.len(), true, "limits {4096, 10 000, 65 535, 65 536, 100 000, 100 001, 131 072, 250 000} on tiny screens, flooded past limit + 15 % in one call / four calls / line by line, then a resize and an alternate-screen round trip", &|i| cases.get(i).cloned(), &j));
+    }
     parts.push(random_part(env, "long-sessions", env.tier.scale(400, 30), &gen_long_session, &j));
     parts.push(random_part(env, "random-histories", env.tier.scale(120_000, 30), &gen_case, &j));
     PropRun {
